@@ -74,15 +74,14 @@ SCENARIOS = [
 
 
 def _opclass(op):
-    """System-call family of an intercepted operation (for persistent faults)."""
+    """Family of an intercepted operation, for persistent faults: a destination that cannot be
+    WRITTEN (created, opened for writing, written, truncated, renamed onto) or cannot be READ
+    (opened for reading), etc."""
     if op in ("open:r",):
-        return "open-read"
-    if op in ("open:w", "open:a", "open:rw", "create", "osopen"):
-        return "open-write"
-    if op in ("f.write", "f.truncate", "truncate"):
+        return "read"
+    if op in ("open:w", "open:a", "open:rw", "create", "osopen", "f.write", "f.truncate",
+              "truncate", "rename", "replace", "link", "symlink"):
         return "write"
-    if op in ("rename", "replace", "link", "symlink"):
-        return "rename"
     if op in ("remove", "unlink", "rmdir"):
         return "remove"
     return op
@@ -207,11 +206,17 @@ class Enumerator:
                 if mode == "persistent":
                     stuck.append((_opclass(op), ctx.cur_paths[-1]))
                 raise OSError(err, os.strerror(err) + " (injected)")
-            # persistent: THAT system call keeps failing for THAT destination until the call
-            # returns (reads keep failing, or writes, or renames onto it ...); other kinds of
-            # operation on the same path still work - otherwise no roll-back could ever succeed
-            if stuck and any((_opclass(op), p) in stuck for p in ctx.cur_paths):
-                raise OSError(err, os.strerror(err) + " (injected, persistent)")
+            # persistent: THAT KIND of access to THAT destination keeps failing until the call
+            # returns - it cannot be written (created, opened for writing, written, renamed
+            # onto: shutil.move's copy fall-back fails too), or it cannot be read, or removed.
+            # Failing EVERY operation on the path would make the property unsatisfiable (a
+            # shared list that can be neither read nor edited cannot be rolled back).
+            if stuck:
+                cls = _opclass(op)
+                dests = ctx.cur_paths[-1:] if cls == "write" and op in ("rename", "replace") \
+                    else ctx.cur_paths
+                if any((cls, p) in stuck for p in dests):
+                    raise OSError(err, os.strerror(err) + " (injected, persistent)")
         ctx.before = before
         # the call runs in its own thread under a watchdog: a fault that makes the call wait
         # for a lock it already holds would otherwise hang the enumeration
